@@ -54,6 +54,20 @@ def merges(na, nb):
         yield s
 
 
+def merges3(na, nb, nc):
+    """all interleavings of na / nb / nc actions of callers 0 / 1 / 2"""
+    n = na + nb + nc
+    for pa in itertools.combinations(range(n), na):
+        rest = [p for p in range(n) if p not in pa]
+        for pb in itertools.combinations(rest, nb):
+            s = [2] * n
+            for p in pa:
+                s[p] = 0
+            for p in pb:
+                s[p] = 1
+            yield s
+
+
 def rand_merge(rng, counts):
     s = [i for i, c in enumerate(counts) for _ in range(c)]
     rng.shuffle(s)
@@ -137,13 +151,24 @@ def exhaustive(rng, claim, thorough):
         for _ in range(per):
             f1 = rng.choice([-1, -1, k, rng.randrange(n_act)])
             out.append(case([act(101, 0, fault=k), act(rng.choice([101, 102]), 1, fault=f1)], rand_merge(rng, [14, 14])))
-    # activation against revocation: every interleaving
+    # activation against revocation: EVERY interleaving of one activator and one revoker, in both tiers
+    # (mutual exclusion of a successful revocation and a successful activation; revoked-before-Claim never creates)
     n_rev = 4 if claim else 3
     mr = list(merges(n_act, n_rev))
-    if not thorough:
-        mr = rng.sample(mr, 60)
     for s in mr:
         out.append(case([act(101, 0), rev()], s))
+    # two activators + one revoker: every interleaving of the actions up to and including each caller's claim
+    # (3 + 3 + n_rev actions; everything after is drained in caller order), thorough: all, quick: a sample;
+    # plus random full interleavings of the three complete runs
+    pre3 = list(merges3(3, 3, n_rev))
+    if not thorough:
+        pre3 = rng.sample(pre3, 300)
+    for s in pre3:
+        out.append(case([act(101, 0), act(rng.choice([101, 102]), 1), rev()], s))
+    for _ in range(20000 if thorough else 150):
+        out.append(case([act(101, 0), act(102, 1), rev()], rand_merge(rng, [n_act + 5, n_act + 5, n_rev + 1])))
+    if not thorough:
+        mr = rng.sample(mr, 60)
     for k in range(n_act + 1):
         for s in (mr if thorough else mr[:6])[:: 3]:
             out.append(case([act(101, 0, fault=k), rev(fault=rng.choice([-1, -1, 0, 1, 2]))], s + [0] * 6 + [1] * 2))
